@@ -369,6 +369,7 @@ messageTypeSwitching:
 		if err != nil {
 			m.warnError(errors.Wrap(err, "saving session"))
 		}
+		verifPoint("salt.adopted", message.ServerSalt, message.FirstMsgID)
 
 	case *objects.Pong, *objects.MsgsAck:
 		// игнорим, пришло и пришло, че бубнить то
